@@ -1011,7 +1011,7 @@ impl Transaction {
             // no value-carrying input may be referenced twice
             let mut unique_inputs: AHashSet<SaitoUTXOSetKey> = Default::default();
             for slip in self.from.iter() {
-                if slip.amount == 0 || slip.slip_type == SlipType::Bound {
+                if slip.amount == 0 {
                     continue;
                 }
                 if !unique_inputs.insert(slip.utxoset_key) {
